@@ -19,6 +19,12 @@ pub enum Case {
     Insert { text: String, pos: u16, seq: String },
     /// (e) anything: never exceeds the byte length
     Any { text: String },
+    /// (f) a history of calls on one thread: growing prefixes of one text
+    /// (cut at arbitrary character boundaries, so also inside escape
+    /// sequences), then the text itself twice; every clean one is judged
+    /// against the table sum. An incremental or memoising implementation
+    /// that carries something over from the previous call shows here.
+    Seq { text: String, cuts: Vec<u16> },
 }
 
 pub struct P;
@@ -109,6 +115,45 @@ pub fn check(c: &Case) -> Outcome {
                 classes.push("insertion_interior");
             }
             Outcome::pass(true, classes)
+        }
+        Case::Seq { text, cuts } => {
+            let bounds: Vec<usize> = (0..=text.len()).filter(|b| text.is_char_boundary(*b)).collect();
+            let mut ends: Vec<usize> = cuts.iter().map(|c| bounds[gen::pick(*c, bounds.len())]).collect();
+            ends.sort_unstable();
+            ends.push(text.len());
+            ends.push(text.len());
+            let mut judged = 0;
+            for (k, e) in ends.iter().enumerate() {
+                let t = &text[..*e];
+                let got = display_width(t);
+                ensure!(
+                    got <= t.len(),
+                    "call {} of a history: display_width({}) = {} exceeds the byte length {}",
+                    k + 1,
+                    show(t),
+                    got,
+                    t.len()
+                );
+                let sc = scan::scan(t);
+                if sc.clean() {
+                    let want = scan::dw_with(t, &sc);
+                    ensure!(
+                        got == want,
+                        "call {} of a history (earlier calls on the same thread: {:?}): display_width({}) = {} but the sum of character widths outside CSI/OSC sequences is {}",
+                        k + 1,
+                        ends[..k].iter().map(|e| &text[..*e]).collect::<Vec<_>>(),
+                        show(t),
+                        got,
+                        want
+                    );
+                    judged += 1;
+                }
+            }
+            let mut classes = vec!["call_history"];
+            if !scan::scan(text).spans.is_empty() {
+                classes.push("has_sequence");
+            }
+            Outcome::pass(judged >= 2 && interesting(text), classes)
         }
         Case::Any { text } => {
             let got = display_width(text);
@@ -204,6 +249,8 @@ impl Property for P {
             30 => (gen::token_text(clean_mix, n), any::<u16>(), seq_strategy())
                 .prop_map(|(text, pos, seq)| Case::Insert { text, pos, seq }),
             20 => gen::token_text(Mix::FULL, n).prop_map(|text| Case::Any { text }),
+            10 => (gen::token_text(clean_mix, n), prop::collection::vec(any::<u16>(), 1..=4))
+                .prop_map(|(text, cuts)| Case::Seq { text, cuts }),
             20 => gen::wild_string(24).prop_map(|text| Case::Any { text }),
             // long strings (a chunked or batched implementation would show)
             1 => gen::scaled_text_and_width(clean_mix, 3000).prop_map(|(text, _)| Case::Clean { text }),
